@@ -499,9 +499,16 @@ class DPTComplex(DPTBase, Generic[_ComplexDataT]):
     def to_knx(cls, value: _ComplexDataT | Mapping[str, Any]) -> DPTArray | DPTBinary:
         """Serialize to KNX/IP raw data."""
         try:
-            if isinstance(value, cls.data_type):
-                return cls._to_knx(value)
-            return cls._to_knx(cls.data_type.from_dict(value))  # type: ignore[arg-type]
+            if not isinstance(value, cls.data_type):
+                value = cls.data_type.from_dict(value)  # type: ignore[arg-type]
+            payload = cls._to_knx(value)
+            if isinstance(payload, DPTArray) and any(
+                not isinstance(octet, int) or not 0 <= octet <= 0xFF
+                for octet in payload.value
+            ):
+                # eg. float or out of range field values
+                raise ValueError("Field value does not fit its octet")
+            return payload
         except (
             ValueError,
             TypeError,
